@@ -252,6 +252,8 @@ class Evaluator:
                 return h(self, None, [self.eval(a, env, this) for a in e["a"]])
             if len(e["a"]) == 1:
                 return self.eval(e["a"][0], env, this)
+            if not e["a"] and e.get("c", "").startswith(("std::unique_ptr<", "std::shared_ptr<")):
+                return None       # a default-constructed smart pointer is null
             raise Broken("comparator constructs %s (unmodelled)" % e.get("c"))
         if k == "asg":
             rhs = self.eval(e["rhs"], env, this)
@@ -339,6 +341,13 @@ class Evaluator:
                 if obj is None and e.get("op") and e.get("ismethod") and args:
                     obj, args = args[0], args[1:]      # member operator written infix: the object is the first operand
                 return h(self, obj, args)
+            if e.get("op") == "=" and e.get("ismethod") and len(e.get("a", [])) == 2 and e.get("obj") is None and not e.get("own"):
+                # assignment operator of a library class (pair, unique_ptr, iterator ...): the target now denotes the value
+                rhs = self.eval(e["a"][1], env, this)
+                if hasattr(rhs, "copy_value"):
+                    rhs = rhs.copy_value()
+                self.store(e["a"][0], rhs, env, this)
+                return rhs
             if e.get("op") in ("==", "!=", "<", ">", "<=", ">=") and len(e.get("a", [])) == 2:
                 a = self.eval(e["a"][0], env, this)
                 b = self.eval(e["a"][1], env, this)
@@ -393,6 +402,12 @@ class Evaluator:
                 if self.ptr_lt is None:
                     raise Broken("pointer order used but no address model supplied")
                 return {"<": aa < bb, ">": aa > bb, "<=": aa <= bb, ">=": aa >= bb}[op]
+        # an enumerator compared with (or combined with) a plain integer takes part with its compiler-evaluated value
+        is_enum = lambda x: isinstance(x, tuple) and len(x) == 3 and x[0] == "enum" and x[2] is not None
+        if is_enum(a) and isinstance(b, (int, bool)):
+            a = int(a[2])
+        elif is_enum(b) and isinstance(a, (int, bool)):
+            b = int(b[2])
         if isinstance(a, tuple) and isinstance(b, tuple) and a and a[0] == "enum":
             if op == "==":
                 return a == b
